@@ -2012,4 +2012,28 @@ theorem refineSpacing_jittered (g : Nat → Rat) (hg : StrictMono g) {M : Nat} (
 theorem ofList_rowOf (p : V3) : V3.ofList (rowOf p) = some p := by
   obtain ⟨x, y, z⟩ := p; rfl
 
+theorem refineSpacing_append (s : Rat) (ds : List Rat) (D : Rat) :
+    refineSpacing s (ds ++ [D])
+      = (if 0 < roundHalfEven (D / refineSpacing s ds) then D / ((roundHalfEven (D / refineSpacing s ds) : Int) : Rat)
+         else refineSpacing s ds) := by
+  unfold refineSpacing
+  rw [List.foldl_append]
+  rfl
+
+/-- the refined estimate is fitted to the LAST distance: if that distance rounds to a positive number `n` of (resulting) spacings,
+the estimate is exactly `D / n` -/
+theorem refineSpacing_fits_last (s : Rat) (ds : List Rat) {D : Rat} (hD : 0 < D)
+    (hn : 0 < roundHalfEven (D / refineSpacing s (ds ++ [D]))) :
+    refineSpacing s (ds ++ [D]) * ((roundHalfEven (D / refineSpacing s (ds ++ [D])) : Int) : Rat) = D := by
+  rw [refineSpacing_append] at hn ⊢
+  by_cases h : 0 < roundHalfEven (D / refineSpacing s ds)
+  · rw [if_pos h] at hn ⊢
+    have hq : (0 : Rat) < ((roundHalfEven (D / refineSpacing s ds) : Int) : Rat) := by exact_mod_cast h
+    have e : D / (D / ((roundHalfEven (D / refineSpacing s ds) : Int) : Rat)) = ((roundHalfEven (D / refineSpacing s ds) : Int) : Rat) := by
+      field_simp
+    rw [e, roundHalfEven_intCast]
+    field_simp
+  · rw [if_neg h] at hn
+    exact absurd hn h
+
 end HdVerif.Stack
